@@ -36,6 +36,8 @@ import LinVerif.Lemmas.C11Sources
 import LinVerif.Lemmas.C11Block
 import LinVerif.Lemmas.C11BlockRT
 import LinVerif.Lemmas.C11Pending
+import LinVerif.Lemmas.C11Iter
+import LinVerif.Lemmas.C11QuerySnap
 import LinVerif.Model.C11FlushFault
 import LinVerif.Generated.C11
 import LinVerif.Driver.C11
@@ -1396,6 +1398,116 @@ theorem pending_protocol_tie :
        "execPlan.AddChild(NewPlanNode(operator.NewLeafReduce(stage.leafExecuteCtx, stage.executeCtx)))"] := by
   refine ⟨rfl, rfl, rfl, rfl, rfl, rfl, rfl⟩
 
+/-! ### Round 12 — query series → storage positions (`DataLoadContext.Grouping` /
+`IterateLowSeriesIDs`, flow/context.go): the helper of both loaders -/
+
+/-- the statements of the two functions and the two places where a loader indexes its storage unit by
+the callback's second argument, regenerated from the source. -/
+theorem iterate_low_series_tie :
+    Generated.C11.iterateLowSeriesIDsStmts =
+      ["min := ctx.MinSeriesID", "max := ctx.MaxSeriesID", "lowSeriesIDs := ctx.LowSeriesIDs",
+       "it := lowSeriesIDsFromStorage.PeekableIterator()", "seriesIdxFromStorage := 0",
+       "for it.HasNext() {", "seriesID := it.Next()", "if seriesID > max {", "break", "}",
+       "if seriesID < min {", "seriesIdxFromStorage++", "continue", "}",
+       "seriesIdxFromQuery := seriesID - min", "if lowSeriesIDs[seriesIdxFromQuery] == seriesID {",
+       "fn(seriesIdxFromQuery, seriesIdxFromStorage)", "}", "seriesIdxFromStorage++", "}"] ∧
+    Generated.C11.dataLoadGroupingStmts =
+      ["min := ctx.LowSeriesIDsContainer.Minimum()", "ctx.MinSeriesID = min",
+       "ctx.MaxSeriesID = ctx.LowSeriesIDsContainer.Maximum()",
+       "lengthOfSeriesIDs := int(ctx.MaxSeriesID-ctx.MinSeriesID) + 1",
+       "ctx.LowSeriesIDs = make([]uint16, lengthOfSeriesIDs)", "if ctx.IsGrouping {",
+       "ctx.GroupingSeriesAggRefs = make([]uint16, lengthOfSeriesIDs)", "}",
+       "it := ctx.LowSeriesIDsContainer.PeekableIterator()", "for it.HasNext() {",
+       "lowSeriesID := it.Next()", "seriesIdx := lowSeriesID - min",
+       "ctx.LowSeriesIDs[seriesIdx] = lowSeriesID", "}"] ∧
+    Generated.C11.iterateStoragePositionUses =
+      ["timeSeriesIndex.Load: memTimeSeriesIDs[seriesIdxFromStorage]",
+       "metricLoader.Load: s.lowKeyOffsets.GetBlock(seriesIdxFromStorage, s.seriesEntriesBlock)"] := by
+  refine ⟨rfl, rfl, rfl⟩
+
+open LinVerif.Model.C11Iter LinVerif.Lemmas.C11Iter in
+/-- FULL STRENGTH: for EVERY non-empty ascending query container `q` and EVERY ascending storage
+container `st` (any ids, any overlap: ids of the storage before the query's smallest, the query's
+smallest absent from the storage, gaps, ids after the query's largest), `Grouping()` followed by
+`IterateLowSeriesIDs` calls the callback exactly for the stored ids the query selects, in storage
+order, each with its query index `id - min` and ITS OWN position in the storage container. -/
+theorem iterate_eq_selected_positions (q st : List Nat) (hne : q ≠ [])
+    (hq : q.Pairwise (· < ·)) (hst : st.Pairwise (· < ·)) :
+    iterate (grouping q) st = selectedAt q (grouping q).min st 0 := by
+  obtain ⟨hb, ht⟩ := grouping_spec q hne hq
+  exact iterLoop_eq_selectedAt (grouping q) q hb ht st 0 hst
+
+open LinVerif.Model.C11Iter LinVerif.Lemmas.C11Iter in
+/-- the same as a characterisation of the callback's arguments: `(qi, si)` is passed iff the id at
+storage position `si` is selected by the query and `qi` is its offset from the query's smallest id. -/
+theorem iterate_pair_iff (q st : List Nat) (hne : q ≠ [])
+    (hq : q.Pairwise (· < ·)) (hst : st.Pairwise (· < ·)) (qi si : Nat) :
+    (qi, si) ∈ iterate (grouping q) st ↔ ∃ s, st[si]? = some s ∧ s ∈ q ∧ qi = s - (grouping q).min := by
+  rw [iterate_eq_selected_positions q st hne hq hst, selectedAt_mem]
+  constructor
+  · rintro ⟨s, _, h2, h3, h4⟩; exact ⟨s, by simpa using h2, h3, h4⟩
+  · rintro ⟨s, h2, h3, h4⟩; exact ⟨s, Nat.zero_le _, by simpa using h2, h3, h4⟩
+
+open LinVerif.Model.C11Iter LinVerif.Lemmas.C11Iter in
+/-- what a loader reads (`memTimeSeriesIDs[si]`, `lowKeyOffsets.GetBlock(si)`): with one entry per
+stored id in id order, every entry handed to query index `qi` is the entry of the series
+`min + qi` itself — never a neighbour's. -/
+theorem loader_reads_own_entry (q st entries : List Nat) (hne : q ≠ [])
+    (hq : q.Pairwise (· < ·)) (hst : st.Pairwise (· < ·)) (qi : Nat) (e : Option Nat)
+    (h : (qi, e) ∈ loadEntries (iterate (grouping q) st) entries) :
+    ∃ (si s : Nat), st[si]? = some s ∧ s ∈ q ∧ s = (grouping q).min + qi ∧ e = entries[si]? := by
+  simp only [loadEntries, List.mem_map] at h
+  obtain ⟨⟨qi', si⟩, hm, he⟩ := h
+  obtain ⟨s, h1, h2, h3⟩ := (iterate_pair_iff q st hne hq hst qi' si).mp hm
+  have hmin := (grouping_spec q hne hq).1 s h2
+  have e1 : qi' = qi := (Prod.mk.inj he).1
+  have e2 : entries[si]? = e := (Prod.mk.inj he).2
+  exact ⟨si, s, h1, h2, by omega, e2.symm⟩
+
+open LinVerif.Model.C11Iter in
+/-- non-vacuity: storage {1,2,4,9}, query {3,4,9,12}: ids before the query's smallest, the smallest
+absent, one selected id after a gap. -/
+example : iterate (grouping [3, 4, 9, 12]) [1, 2, 4, 9] = [(1, 2), (6, 3)] ∧
+    loadEntries (iterate (grouping [3, 4, 9, 12]) [1, 2, 4, 9]) [10, 20, 40, 90] = [(1, some 40), (6, some 90)] := by
+  decide
+
+/-! ### Round 12 — a query concurrent with flushes: what it picked at filter time stays readable -/
+
+/-- `dataPointBuffer.GetPage` does not look at the released mark, `Release` only sets it, and
+`memoryDatabase.Close` releases the buffers and cleans the index — regenerated from the source. -/
+theorem released_buffer_tie :
+    Generated.C11.releasedBufferKeepsPages = true ∧
+    Generated.C11.getPageStmts =
+      ["var ( pageID int32 ok bool )", "d.lock.RLock()", "pageID, ok = d.ids.Get(memSeriesID)",
+       "d.lock.RUnlock()", "if !ok {", "return nil, false", "}", "region := pageID / pageCount",
+       "rOffset := pageID % pageCount", "offset := pageSize * rOffset",
+       "return d.buf[region][offset : offset+pageSize], true"] ∧
+    Generated.C11.bufferReleaseStmts = ["d.dirty.Store(true)"] ∧
+    Generated.C11.memdbCloseCalls = ["λ:?.Release", "fieldWriteStores.Range", "indexDB.Cleanup"] := by
+  refine ⟨rfl, rfl, rfl, rfl⟩
+
+open LinVerif.C11QuerySnap LinVerif.Lemmas.C11QuerySnap in
+/-- NO ACCEPTED POINT IS LOST TO A CONCURRENT FLUSH: for every history `before` of writes, window
+exits, memory-database switches and flush completions, a query that filters in the state after it
+(picks the live memory databases and the files of that moment) and loads after ANY further history
+`after` — later writes, any number of flushes that run to completion and close the memory databases
+it picked — reads every point written before it started. Stated over the regenerated flag. -/
+theorem query_snapshot_survives_later_flushes (before after : List LinVerif.C11QuerySnap.Op) (p : Nat)
+    (hp : p ∈ written before) :
+    p ∈ load Generated.C11.releasedBufferKeepsPages (run (run {} before) after) (filter (run {} before)) := by
+  have : Generated.C11.releasedBufferKeepsPages = true := rfl
+  rw [this]
+  exact load_of_reach _ _ _ (reach_run _ after _ _ (reach_filter _ _ (written_stored before {} p hp)))
+
+open LinVerif.C11QuerySnap in
+/-- non-vacuity: 1 is in a file, 2 was compacted out of the window, 3 is in the current window; the
+query filters, the flush completes (and 4 is written), the query loads. -/
+example :
+    load true (run (run {} [.write 1, .flushBegin, .flushCommit, .write 2, .roll, .write 3])
+        [.flushBegin, .flushCommit, .write 4])
+      (filter (run {} [.write 1, .flushBegin, .flushCommit, .write 2, .roll, .write 3])) = [1, 2, 3] := by
+  decide
+
 open LinVerif.C11Pending LinVerif.Lemmas.C11Pending in
 /-- NEVER PREMATURE: under every schedule, whenever a `leafReduce` calls `Reduce`, every `dataLoad`
 of every stage has finished — whichever loads returned early (the counter is exactly the number of
@@ -1698,6 +1810,26 @@ theorem reset_after_failed_flush_loses_points :
     visible (run false {} [.write 1, .write 2, .flush true, .write 3]) = [3] ∧
     written [.write 1, .write 2, .flush true, .write 3] = [1, 2, 3] ∧
     visible (run true {} [.write 1, .write 2, .flush true, .write 3]) = [1, 2, 3] := by decide
+
+open LinVerif.Model.C11Iter in
+/-- c11-25: jumping to the query's smallest id and continuing at position `Rank(min) - 1` reads the
+PREDECESSOR's entry whenever the smallest id is absent from the storage unit (storage {1,2,4}, query
+{3,4}: series 4 is read from the entry of series 2); the code's loop reads its own. With the
+smallest id present both agree. -/
+theorem rank_skip_reads_predecessor_entry :
+    loadEntries (iterateRankSkip (grouping [3, 4]) [1, 2, 4]) [10, 20, 40] = [(1, some 20)] ∧
+    loadEntries (iterate (grouping [3, 4]) [1, 2, 4]) [10, 20, 40] = [(1, some 40)] ∧
+    iterateRankSkip (grouping [3, 4]) [1, 2, 3, 4] = iterate (grouping [3, 4]) [1, 2, 3, 4] := by decide
+
+open LinVerif.C11QuerySnap in
+/-- c11-24: if a released buffer hands out no page, a query that filtered before the flush completed
+loses the current write window of the memory database it picked (3; the compacted 2 survives) — the
+new file is not in its snapshot. -/
+theorem released_buffer_without_pages_loses_window :
+    load false (run (run {} [.write 1, .flushBegin, .flushCommit, .write 2, .roll, .write 3])
+        [.flushBegin, .flushCommit])
+      (filter (run {} [.write 1, .flushBegin, .flushCommit, .write 2, .roll, .write 3])) = [1, 2] ∧
+    written [.write 1, .flushBegin, .flushCommit, .write 2, .roll, .write 3] = [1, 2, 3] := by decide
 
 end Neg
 
